@@ -34,7 +34,7 @@ func C16_reader_cut() {
 	if cut == 0 {
 		inPayloadOrBetween = false
 	}
-	api := vChoose("api", 4)
+	api := vChoose("api", 5)
 	switch api {
 	case 0: // Reader + read until EOF
 		src := &vCutSrc{data: wire, cut: cut, useErr: useErr, one: one, withData: withData}
@@ -61,12 +61,33 @@ func C16_reader_cut() {
 			// a transport error must not be turned into a clean EOF
 			vAssert(err != io.EOF, "cut.transport_error_not_eof")
 		}
+	case 4: // frame by frame: NextFrame, read the frame's bytes through the Reader, NextFrame again
+		src := &vCutSrc{data: wire, cut: cut, useErr: useErr, one: one, withData: withData}
+		rd := &Reader{Source: src, State: vSide(server)}
+		var err error
+		for i := 0; i < 4 && err == nil; i++ {
+			_, err = rd.NextFrame()
+			if err == nil {
+				_, err = vReadAllB(rd, 16)
+				if err == io.EOF && rd.State.Fragmented() {
+					err = nil // end of a non-final fragment's data reached through Read: go on
+				}
+			}
+		}
+		vAssert(err != nil, "cut.frame_loop_fails")
+		if inPayloadOrBetween {
+			vAssert(err != io.EOF, "cut.frame_loop_not_clean_eof")
+		}
 	case 1: // Discard
 		src := &vCutSrc{data: wire, cut: cut, useErr: useErr, one: one, withData: withData}
 		rd := &Reader{Source: src, State: vSide(server)}
 		_, err := rd.NextFrame()
 		if err == nil {
-			vAssert(rd.Discard() != nil, "cut.discard_of_cut_message_fails")
+			derr := rd.Discard()
+			vAssert(derr != nil, "cut.discard_of_cut_message_fails")
+			if inPayloadOrBetween {
+				vAssert(derr != io.EOF, "cut.discard_not_clean_eof")
+			}
 		}
 	case 2: // ReadMessage
 		src := &vCutSrc{data: wire, cut: cut, useErr: useErr, one: one, withData: withData}
@@ -86,7 +107,9 @@ func C16_reader_cut() {
 		}
 	case 3: // readData
 		rw := &vCutRW{vCutSrc: vCutSrc{data: wire, cut: cut, useErr: useErr, one: one, withData: withData}}
-		p, _, err := readData(rw, vSide(server), ws.OpText|ws.OpBinary)
+		// (want mask: both kinds, or only the other kind so that the cut message is skipped)
+		want := []ws.OpCode{ws.OpText | ws.OpBinary, ws.OpText, ws.OpBinary}[vChoose("want", 3)]
+		p, _, err := readData(rw, vSide(server), want)
 		vAssert(err != nil, "cut.readdata_fails")
 		_ = p // bytes returned together with a non-nil error are not a success report (not asserted)
 		if inPayloadOrBetween {
